@@ -77,6 +77,27 @@ fn rewrite(rw: &mut Rw, ts: TokenStream) -> TokenStream {
             rw.transmutes += 1;
             out.push(TokenTree::Ident(rw.to_enum.clone()));
             i += n;
+            // an explicit turbofish `transmute::<A, B>(x)` carries no information the monitor needs: skip `:: < … >`
+            if i + 2 < v.len() && is_p(&v[i], ':') && is_p(&v[i + 1], ':') && is_p(&v[i + 2], '<') {
+                let mut depth = 0i32;
+                let mut k = i + 2;
+                while k < v.len() {
+                    if is_p(&v[k], '<') {
+                        depth += 1;
+                    } else if is_p(&v[k], '>') {
+                        depth -= 1;
+                        if depth == 0 {
+                            break;
+                        }
+                    }
+                    k += 1;
+                }
+                if k < v.len() {
+                    i = k + 1;
+                } else {
+                    rw.unknown.push("transmute with an unbalanced turbofish".into());
+                }
+            }
             continue;
         }
         if let Some(n) = core_mem_path(&v, i, "MaybeUninit") {
